@@ -341,11 +341,41 @@ func (sc *StorageCar) Put(ctx context.Context, keyStr string, data []byte) error
 	}
 	n := uint64(w.Position())
 	if err := util.LdWrite(w, keyCid.Bytes(), data); err != nil {
+		sc.abandonSection(n)
 		return err
 	}
 	idx.InsertNoReplace(keyCid, n)
 
 	return nil
+}
+
+// abandonSection is called when writing the section that starts at payload
+// offset n failed part-way. It drops the partial section so that it neither
+// precedes the next section nor is left behind at the end of the CAR. Where
+// that is not possible the CAR is unusable and is closed.
+func (sc *StorageCar) abandonSection(n uint64) {
+	if sc.dataWriter == nil {
+		// A plain stream cannot be rewound.
+		sc.closed = true
+		return
+	}
+	if _, err := sc.dataWriter.Seek(int64(n), io.SeekStart); err != nil {
+		sc.closed = true
+		return
+	}
+	end := int64(n)
+	if !sc.opts.WriteAsCarV1 {
+		end += int64(sc.header.DataOffset)
+	}
+	if ptw, ok := sc.writer.(*positionTrackingWriter); ok {
+		if t, ok := ptw.w.(interface{ Truncate(size int64) error }); ok && t.Truncate(end) == nil {
+			return
+		}
+	}
+	if sc.opts.WriteAsCarV1 {
+		// Nothing will overwrite the partial section in a CARv1.
+		sc.closed = true
+	}
 }
 
 // Has returns true if the CAR contains a block identified by the given CID
